@@ -542,8 +542,18 @@ func (r *verifRig) genData(allowLocalhost bool) verifDataIn {
 	case 2: // foreign 6-byte token: not one of this forwarder's (32-bit random) entry tokens
 		d.tok = verifBytesN("ftok", 6)
 		verifDistinctFromRandom(binary.BigEndian.Uint32(d.tok[2:6]))
-	case 3: // token of another length
-		d.tok = verifBytesN("otok", 3)
+	case 3: // token of another length: shorter, or longer than this forwarder's 6 bytes - then possibly starting with one of its tokens
+		if verifBool("longtok") {
+			d.tok = verifBytesN("otok8", 8)
+			for _, p := range r.pend {
+				if p.upToken != nil && verifBool("startsWithOurs") {
+					d.tok = append(append([]byte{}, p.upToken...), 0x5a, 0xa5)
+					break
+				}
+			}
+		} else {
+			d.tok = verifBytesN("otok", 3)
+		}
 	}
 	return d
 }
